@@ -36,7 +36,7 @@ def shards(tier, seed):
 
 def floors(tier):
     f = {"compiles:noisy": 1500, "class:A": 150, "class:B": 60, "class:C": 40, "switch:zero_strength": 60, "switch:empty_map": 60,
-         "switch:off": 60, "attach:direct": 150, "attach:map": 150, "fidelity:checked": 500, "loss:events": 200, "attach:wrapper_level_noise_object": 40, "attach:solver_map": 60,
+         "switch:off": 60, "attach:direct": 150, "attach:map": 150, "fidelity:checked": 500, "loss:events": 200, "attach:wrapper_level_noise_object": 40, "attach:solver_map": 60, "history:compiled_before_assign_noise": 60,
          "solver_map:e_and_p_entries_differ_for_a_gate_type": 20, "solver_map:wrapper_level_key": 8}
     for model in ("depol", "pauli", "loss"):
         for place in ("before", "after"):
@@ -352,6 +352,17 @@ def check_case(pseed, ctx, m, mon):
         mp = {"e": {}, "p": {}, "ee": {}, "ep": {}, "pe": {}, "pp": {}} if switch == "empty_map" else rand_map(rng, zero=(switch == "zero_strength"))
         noise_from_map(prog, oplist, mp)
         base = build_circuit(prog, oplist, with_noise_objects=False)
+        if rng.random() < 0.5:
+            # the circuit has been used before the noise map is applied to it (compiled, listed unwrapped), as a solver does
+            ctx.count("history:compiled_before_assign_noise")
+            try:
+                c0 = m[["StabilizerCompiler", "DensityMatrixCompiler"][int(rng.integers(2))]]()
+                c0.measurement_determinism = det
+                c0.compile(base)
+                base.sequence(unwrapped=True)
+                mon.pop_runs()
+            except Exception:
+                mon.pop_runs()
         try:
             circ = base.assign_noise(gq_map(mp))
         except Exception as e:
